@@ -5,19 +5,23 @@ PROOF_NOTE = ("floats as reals; C ints as mathematical ints with overflow obliga
 CHECKS = [
  dict(id="C01", engine="cfront+csym, symtrace", category="proof", design_ref="DESIGN.md section 5 C01",
       text="the three C geometry kernels, the python reference functions of transform.py, the numba copies of point_by_point.py, Ctransform and "
-           "columnfile.updateGeometry (fast and slow route) are each proved equal to one reference geometry function for all parameters, "
+           "columnfile.updateGeometry (fast and slow route), updateGV and the composing functions of point_by_point (argument wiring) are each proved equal to one reference geometry function for all parameters, "
            "peaks, omega signs and all wedge/chi/translation branches",
       note=PROOF_NOTE + "; trusted trig facts T1-T4; numpy object-array semantics; one generic peak (element-wise operations)",
       technique="contracts on the real C + symbolic execution of the real numpy functions, each against a common spec function; z3"),
- dict(id="C06", engine="cfront+csym", category="proof", design_ref="DESIGN.md section 5 C06",
-      text="every obligation of inverse3x3, verify_rounding, score, score_and_refine, refine_assigned (postconditions = the property's "
-           "count / least-squares definition as recursive sums, loop invariants, memory safety) discharged by z3 for all inputs and all peak counts",
-      note=PROOF_NOTE + "; |ubi.g| <= 2^51; lemma rne_magic (bit-precise, thorough tier)",
-      technique="function contracts + loop invariants on the real C (clang AST), VCs by symbolic execution, z3"),
- dict(id="C07", engine="cfront+csym", category="proof", design_ref="DESIGN.md section 5 C07",
-      text="score_and_assign verified against its per-peak postcondition and frame, data-race freedom of its omp loop (two-iteration "
-           "self-composition), hence thread-count independence; contract-level lemma for grain sequences",
-      note=PROOF_NOTE, technique="function contract + DRF obligations + contract-level lemma, z3"),
+ dict(id="C06", engine="cfront+csym", category="other", design_ref="DESIGN.md section 5 C06",
+      text="proved: every obligation of inverse3x3, verify_rounding, score, score_and_refine, refine_assigned (postconditions = the property's "
+           "count / least-squares definition as recursive sums, loop invariants, memory safety) discharged by z3 for all inputs and all peak counts. "
+           "Bounded: the python references indexing.calc_drlv2 / refine and the f2py wrappers against the same specification on simulated data",
+      note=PROOF_NOTE + "; |ubi.g| <= 2^51; lemma rne_magic (bit-precise, thorough tier); 'exactly as the python reference computes it' rests on the bounded stand-in; "
+           "the bounded stand-ins evaluate contracts on the real code over the stated finite space and are never counted as proved",
+      technique="function contracts + loop invariants on the real C (clang AST), VCs by symbolic execution, z3; run-time contract on the python references"),
+ dict(id="C07", engine="cfront+csym", category="other", design_ref="DESIGN.md section 5 C07",
+      text="proved: score_and_assign against its per-peak postcondition and frame, data-race freedom of its omp loop (two-iteration "
+           "self-composition), hence thread-count independence; contract-level lemma for grain sequences. Bounded: the python glue "
+           "indexer.fight_over_peaks / getind / myhistogram against a numpy reference over call histories on one indexer, grain orders and thread counts",
+      note=PROOF_NOTE + "; the python glue rests on the bounded stand-in only; " + "the bounded stand-ins evaluate contracts on the real code over the stated finite space and are never counted as proved",
+      technique="function contract + DRF obligations + contract-level lemma, z3; run-time contract on the python glue over a stated grid"),
 ]
 CHECKS += [
  dict(id="C02", engine="symtrace, cfront+csym", category="other", design_ref="DESIGN.md section 5 C02",
